@@ -647,7 +647,7 @@ func init() {
 				}
 			}
 		}
-		us = append(us, coldUnit("nasType", "qos", "handoff", "shared-parse"))
+		us = append(us, coldUnits(tier, "nasType", "qos", "handoff", "shared-parse")...)
 		return us
 	}
 	core.Register(p)
